@@ -4,7 +4,7 @@ import itertools
 
 from dlint.model import AnalysisError, dotted, norm, strip_docstring
 from dlint.walk import Domain, Walker, fold_truth, loopvar_name
-from rules.lifecycle import chain, unwrap_iter, instantiate, Summary
+from rules.lifecycle import chain, unwrap_iter, instantiate, Summary, unget
 
 EXPLANATION = (
     'Coupled-structure check of the two tables of World by abstract '
@@ -43,8 +43,9 @@ class Var:
     """Unknown initial membership of a pair (same in both tables)."""
     _n = itertools.count()
 
-    def __init__(self, name):
+    def __init__(self, name, initial=False):
         self.name = name
+        self.initial = initial
 
     def __repr__(self):
         return f'?{self.name}'
@@ -80,7 +81,7 @@ class PairDomain(Domain):
                 if k in other and isinstance(other[k], Var):
                     d[k] = other[k]
                 else:
-                    v = Var(f'{T} of {e}')
+                    v = Var(f'{T} of {e}', initial=True)
                     d[k] = v
                     if k not in other:
                         other[k] = v
@@ -182,11 +183,6 @@ class PairDomain(Domain):
             b, keys = chain(right)
             if b in (E, C) and len(keys) == 1:
                 k = norm(keys[0])
-            elif isinstance(right, ast.Call) and isinstance(
-                    right.func, ast.Attribute) and right.func.attr == 'get' \
-                    and dotted(right.func.value) in (E, C) and right.args:
-                b = dotted(right.func.value)
-                k = norm(right.args[0])
             else:
                 return None
             if b == E:
@@ -198,8 +194,8 @@ class PairDomain(Domain):
         st.trace.append(ev)
         k = ev.kind
         if k == 'cond':
-            st.data['conds'].append((ev.sym.text, ev.extra,
-                                     dict(ev.sym.stamp)))
+            st.data['conds'].append((unget(ev.sym.text), ev.extra,
+                                     dict(st.versions)))
             r = self._membership(ev.sym.node)
             if r is not None:
                 if not self._assume(st, r[0], r[1], r[2], ev.extra):
@@ -218,9 +214,12 @@ class PairDomain(Domain):
     def _known(self, st, text, truth, field):
         """Was `text` decided `truth` with the current version of field?"""
         cur = st.versions.get(field, 0)
-        for t, tr, stamp in reversed(st.data['conds']):
+        for t, tr, vers in reversed(st.data['conds']):
             if t == text:
-                return tr == truth and stamp.get(field) == cur
+                # decided, and the table was not mutated since it was
+                # evaluated (an alias of a row / index entry is the live
+                # container, so evaluation time is what matters)
+                return tr == truth and vers.get(field, 0) == cur
         return False
 
     def _store(self, st, ev):
@@ -441,16 +440,32 @@ class PairDomain(Domain):
                 k = (instantiate(e, mapping), instantiate(T, mapping))
                 pairs.setdefault(k, []).append((ve, vc))
         for k, vals in pairs.items():
-            if len(vals) == len(live) and all(
-                    isinstance(a, bool) and isinstance(b, bool)
-                    for a, b in vals) and len(set(vals)) == 1:
-                self._val(st, 'inE', *k)
-                st.data['inE'][k], st.data['inC'][k] = vals[0]
-            else:
-                v = Var(f'{k[1]} of {k[0]} after {summ.name}')
-                self._val(st, 'inE', *k)
-                st.data['inE'][k] = v
-                st.data['inC'][k] = v
+            self._val(st, 'inE', *k)
+            self._val(st, 'inC', *k)
+            fresh = None
+            for idx, table in ((0, 'inE'), (1, 'inC')):
+                col = [v[idx] for v in vals]
+                if len(vals) == len(live) and all(c == 'same' for c in col):
+                    continue                    # untouched by the callee
+                if len(vals) == len(live) and all(
+                        isinstance(c, bool) for c in col) \
+                        and len(set(col)) == 1:
+                    st.data[table][k] = col[0]
+                    continue
+                # differs between exits: unknown; the callee was verified
+                # to leave the pair consistent, so both tables share it
+                if fresh is None:
+                    fresh = Var(f'{k[1]} of {k[0]} after {summ.name}')
+                st.data[table][k] = fresh
+            if fresh is not None:
+                # a pair that is unknown after the call is unknown in both
+                # tables (and equal, as verified in the callee)
+                for idx, table in ((0, 'inE'), (1, 'inC')):
+                    col = [v[idx] for v in vals]
+                    if not (len(vals) == len(live) and all(
+                            isinstance(c, bool) for c in col)
+                            and len(set(col)) == 1):
+                        st.data[table][k] = fresh
         for g in (gone or ()):
             st.data['rows_gone'].add(g)
             for (ee, T) in list(st.data['inE']):
@@ -546,13 +561,14 @@ def analyse_writers(program, rep):
             if st.data['ops']:
                 summ.has_sites = True
             entry = []
-            for text, truth, stamp in st.data['conds']:
-                if stamp and all(v == 0 for v in stamp.values()) and not any(
-                        '@' in f for f in stamp):
+            for text, truth, vers in st.data['conds']:
+                if all(v == 0 for f, v in vers.items() if f in (E, C)):
                     entry.append((text, truth))
             final = {}
             for k in set(st.data['inE']) | set(st.data['inC']):
-                final[k] = (dom._val(st, 'inE', *k), dom._val(st, 'inC', *k))
+                ve, vc = dom._val(st, 'inE', *k), dom._val(st, 'inC', *k)
+                final[k] = tuple('same' if isinstance(v, Var) and v.initial
+                                 else v for v in (ve, vc))
             summ.exits.append({'entry': entry, 'final': final,
                                'rows_gone': set(st.data['rows_gone'])})
             if st.data['ops'] or st.data['issues']:
